@@ -150,7 +150,7 @@ def ensure_facts(config="default", thash=None, verbose=True):
         lock.close()
 
 
-def prune_cache(keep, maxkeep=6):
+def prune_cache(keep, maxkeep=int(os.environ.get("PGCHECK_CACHE_KEEP", "6"))):
     root = os.path.join(CACHE, "facts")
     try:
         ents = [(os.path.getmtime(os.path.join(root, e)), e) for e in os.listdir(root)]
